@@ -109,6 +109,26 @@ def alterRename (cloneIdx : Bool) (h : Heap) (ts : Schema) (frm to : Nat) : Heap
 
 /-! ## updateOtherFkToHere -/
 
+/-- `ix.FkToHere = slc.Clone(ix.FkToHere)` for index `i` (= `ix`) of the Indexes array `l` at `ia`;
+returns the heap and the address the following write goes through -/
+def cloneStep (cloneFk : Bool) (h : Heap) (ia : Nat) (l : List Index) (i : Nat) (ix : Index) : Heap × Nat :=
+  if cloneFk then
+    ((clone h ix.fkToHere).1.set ia (.idxs (l.set i { ix with fkToHere := (clone h ix.fkToHere).2 })),
+     (clone h ix.fkToHere).2)
+  else (h, ix.fkToHere)
+
+/-- `fk2 := &ix.FkToHere[j]; if … { fk2.IIndex = iindex }` through the array at `fa` -/
+def writeStep (h : Heap) (fa j : Nat) (table : Nat) (cols fkCols : List Nat) (iindex : Nat) (ix : Index) : Heap :=
+  match h[fa]? with
+  | some (.fks fl) =>
+    match fl[j]? with
+    | some fk2 =>
+      if fk2.table = table ∧ fk2.cols = cols ∧ ix.cols = fkCols then
+        h.set fa (.fks (fl.set j { fk2 with iindex := iindex }))
+      else h
+    | none => h
+  | _ => h
+
 /-- the inner loop `for j := range ix.FkToHere` for index `i` of the schema whose Indexes array
 is at `ia` -/
 def fkLoop (cloneFk : Bool) (table : Nat) (cols fkCols : List Nat) (iindex ia i : Nat) :
@@ -119,24 +139,9 @@ def fkLoop (cloneFk : Bool) (table : Nat) (cols fkCols : List Nat) (iindex ia i 
     | some (.idxs l) =>
       match l[i]? with
       | some ix =>
-        -- ix.FkToHere = slc.Clone(ix.FkToHere)
-        let (h1, fa) :=
-          if cloneFk then
-            let (h1, fa) := clone h ix.fkToHere
-            (h1.set ia (.idxs (l.set i { ix with fkToHere := fa })), fa)
-          else (h, ix.fkToHere)
-        -- fk2 := &ix.FkToHere[j]; if … { fk2.IIndex = iindex }
-        let h2 :=
-          match h1[fa]? with
-          | some (.fks fl) =>
-            match fl[j]? with
-            | some fk2 =>
-              if fk2.table = table ∧ fk2.cols = cols ∧ ix.cols = fkCols then
-                h1.set fa (.fks (fl.set j { fk2 with iindex := iindex }))
-              else h1
-            | none => h1
-          | _ => h1
-        fkLoop cloneFk table cols fkCols iindex ia i (j + 1) n h2
+        fkLoop cloneFk table cols fkCols iindex ia i (j + 1) n
+          (writeStep (cloneStep cloneFk h ia l i ix).1 (cloneStep cloneFk h ia l i ix).2 j
+            table cols fkCols iindex ix)
       | none => h
     | _ => h
 
@@ -158,6 +163,11 @@ def updateOtherFkToHere (cloneIdx cloneFk : Bool) (h : Heap) (target : Schema)
 
 /-! ## util/hamt node.pullUp -/
 
+/-- `if nd.generation != gen { nd = nd.dup(); nd.generation = gen }`: the heap, the address of
+the node that is written from now on, and its generation -/
+def dupStep (guard : Bool) (gen : Nat) (h : Heap) (a g : Nat) (vals ptrs : List Nat) : Heap × Nat × Nat :=
+  if guard && g != gen then (h ++ [.node gen vals ptrs], h.length, gen) else (h, a, g)
+
 /-- returns (heap, address of the node that replaces `a` or none if it became empty, item).
 `fuel` bounds the depth (the trie has at most 7 levels). -/
 def pullUp (guard : Bool) (gen : Nat) : Nat → Heap → Nat → Heap × Option Nat × Nat
@@ -165,21 +175,17 @@ def pullUp (guard : Bool) (gen : Nat) : Nat → Heap → Nat → Heap × Option 
   | fuel + 1, h, a =>
     match h[a]? with
     | some (.node g vals ptrs) =>
-      -- if nd.generation != gen { nd = nd.dup(); nd.generation = gen }
-      let dup := guard && g != gen
-      let (h1, a1) := if dup then alloc h (.node gen vals ptrs) else (h, a)
-      let g1 := if dup then gen else g
+      let d := dupStep guard gen h a g vals ptrs
       match ptrs.getLast? with
       | some cp =>
         -- have children: recurse into the last one
-        let (h2, child, item) := pullUp guard gen fuel h1 cp
-        match child with
-        | some c => (h2.set a1 (.node g1 vals (ptrs.dropLast ++ [c])), some a1, item)
-        | none => (h2.set a1 (.node g1 vals ptrs.dropLast), some a1, item)
+        let r := pullUp guard gen fuel d.1 cp
+        match r.2.1 with
+        | some c => (r.1.set d.2.1 (.node d.2.2 vals (ptrs.dropLast ++ [c])), some d.2.1, r.2.2)
+        | none => (r.1.set d.2.1 (.node d.2.2 vals ptrs.dropLast), some d.2.1, r.2.2)
       | none =>
-        let item := vals.getLastD 0
-        if vals.length ≤ 1 then (h1, none, item)
-        else (h1.set a1 (.node g1 vals.dropLast ptrs), some a1, item)
+        if vals.length ≤ 1 then (d.1, none, vals.getLastD 0)
+        else (d.1.set d.2.1 (.node d.2.2 vals.dropLast ptrs), some d.2.1, vals.getLastD 0)
     | _ => (h, some a, 0)
 
 /-- all items below a node (what `All`/`Get` of an older version can reach) -/
